@@ -10,6 +10,7 @@ package props
 import (
 	"bytes"
 	"fmt"
+	"io"
 	"testing"
 
 	"github.com/datastax/go-cassandra-native-protocol/compression/lz4"
@@ -33,6 +34,11 @@ func segCodec(lz bool) segment.Codec {
 
 // checkSegment returns "" or a failure description; excluded reports a known-finding exclusion.
 func checkSegment(payload []byte, selfContained, lz bool) (fail string, excluded bool) {
+	return checkSegmentFrom(payload, selfContained, lz, nil)
+}
+
+// checkSegmentFrom: chunks != nil makes the round-trip decode read through a short-read source.
+func checkSegmentFrom(payload []byte, selfContained, lz bool, chunks []int) (fail string, excluded bool) {
 	codec := segCodec(lz)
 	seg := &segment.Segment{Header: &segment.Header{IsSelfContained: selfContained}, Payload: &segment.Payload{UncompressedData: payload}}
 	var buf bytes.Buffer
@@ -91,7 +97,16 @@ func checkSegment(payload []byte, selfContained, lz bool) (fail string, excluded
 		}
 	}
 	// --- round trip
-	dec, err := codec.DecodeSegment(bytes.NewReader(append(append([]byte{}, enc...), 0xEE, 0xEE)))
+	var src io.Reader = bytes.NewReader(append(append([]byte{}, enc...), 0xEE, 0xEE))
+	if chunks != nil {
+		src = &chunkReader{r: src, chunks: chunks}
+	}
+	dec, err := codec.DecodeSegment(src)
+	if err == nil {
+		if rest, _ := io.ReadAll(src); !bytes.Equal(rest, []byte{0xEE, 0xEE}) {
+			return fmt.Sprintf("DecodeSegment did not consume exactly the segment: %d bytes left instead of the 2 sentinel bytes", len(rest)), false
+		}
+	}
 	if err != nil {
 		return fmt.Sprintf("DecodeSegment failed on the encoder's own output: %v", err), false
 	}
@@ -163,7 +178,11 @@ func c06Property(rt *rapid.T) {
 	}
 	sc := rapid.Bool().Draw(rt, "selfContained")
 	lz := rapid.Bool().Draw(rt, "lz4")
-	fail, excluded := checkSegment(payload, sc, lz)
+	var chunks []int
+	if rapid.IntRange(0, 2).Draw(rt, "shortReads") == 0 {
+		chunks = drawChunks(rt)
+	}
+	fail, excluded := checkSegmentFrom(payload, sc, lz, chunks)
 	if excluded {
 		rec.Excluded("DEP-lz4-offset-wrap-65536")
 		return
@@ -238,3 +257,59 @@ func TestC06AllLengths(t *testing.T) {
 	rec.Bulk(count, count, "all-lengths")
 	rec.Exhaustive("payload lengths 0..131071 x 4 content classes x {none,lz4}", count)
 }
+
+// several segments back to back on one codec: each decodes to its own payload, the decoder consumes exactly one segment
+// per call, and the results handed out earlier are still intact after the later calls.
+func c06Stream(rt *rapid.T) {
+	rec := stats.For("C06")
+	lz := rapid.Bool().Draw(rt, "lz4")
+	codec := segCodec(lz)
+	n := rapid.IntRange(2, 6).Draw(rt, "nsegments")
+	var stream bytes.Buffer
+	var payloads [][]byte
+	var flags []bool
+	for i := 0; i < n; i++ {
+		l := rapid.SampledFrom([]int{0, 1, 50, 400, 5000, 70000}).Draw(rt, fmt.Sprintf("len%d", i))
+		class := rapid.IntRange(0, 3).Draw(rt, fmt.Sprintf("class%d", i))
+		p := gen.Expand(class, rapid.Uint64().Draw(rt, fmt.Sprintf("seed%d", i)), l)
+		sc := rapid.Bool().Draw(rt, fmt.Sprintf("sc%d", i))
+		seg := &segment.Segment{Header: &segment.Header{IsSelfContained: sc}, Payload: &segment.Payload{UncompressedData: append([]byte{}, p...)}}
+		var one bytes.Buffer
+		if err := codec.EncodeSegment(seg, &one); err != nil {
+			rt.Fatalf("EncodeSegment: %v", err)
+		}
+		if lz && l > 65536 && kf.Open("DEP-lz4-offset-wrap-65536") {
+			if ps, err := ref.ParseSegment(one.Bytes(), true); err == nil && ps.UncompressedLen != 0 && lz4OffsetWrap(ps.Transmitted, p) {
+				rec.Excluded("DEP-lz4-offset-wrap-65536")
+				return
+			}
+		}
+		stream.Write(one.Bytes())
+		payloads = append(payloads, p)
+		flags = append(flags, sc)
+	}
+	stream.Write([]byte{0xEE})
+	var src io.Reader = bytes.NewReader(stream.Bytes())
+	if rapid.Bool().Draw(rt, "shortReads") {
+		src = &chunkReader{r: src, chunks: drawChunks(rt)}
+	}
+	var got []*segment.Segment
+	for i := 0; i < n; i++ {
+		s, err := codec.DecodeSegment(src)
+		if err != nil {
+			rt.Fatalf("segment %d of %d in the stream failed to decode: %v", i, n, err)
+		}
+		got = append(got, s)
+	}
+	if rest, _ := io.ReadAll(src); !bytes.Equal(rest, []byte{0xEE}) {
+		rt.Fatalf("after %d segments %d bytes are left instead of the sentinel byte", n, len(rest))
+	}
+	for i, s := range got { // checked only now: earlier results must survive later calls
+		if !bytes.Equal(s.Payload.UncompressedData, payloads[i]) || s.Header.IsSelfContained != flags[i] {
+			rt.Fatalf("segment %d of %d: payload/flag differ once the whole stream has been decoded (lz4=%v, %d vs %d bytes)", i, n, lz, len(s.Payload.UncompressedData), len(payloads[i]))
+		}
+	}
+	rec.Case(true, stats.Hash(stream.Bytes()), func() string { return fmt.Sprintf("stream of %d segments lz4=%v total %d bytes", n, lz, stream.Len()) }, "stream", fmt.Sprintf("lz4:%v", lz))
+}
+
+func TestC06Stream(t *testing.T) { rapid.Check(t, c06Stream) }
